@@ -24,7 +24,10 @@ THEOREMS = ["C13_roundtrip", "C13_roundtrip_trailing", "C13_reject_header", "C13
             "C13_writer_reader", "C13_transparent", "C13_reemitted", "C13_codegen",
             # on source text / whole programs (Properties/C13Text.v)
             "C13_node_insert", "C13_program_insert", "C13_program_rejected", "C13_text_front", "C13_text",
-            "C13_text_records", "C13_text_rejected"]
+            "C13_text_records", "C13_text_rejected",
+            # the patch of a program, included back, rebuilds the program's image
+            "C13_patch_blocks_read_back", "C13_patch_blocks_roundtrip", "C13_patch_blocks_sfc", "C13_include_only_program",
+            "C13_patch_program_roundtrip", "C13_patch_text_roundtrip"]
 PROOF_HEADER = "From A816 Require Import Properties.C13 Properties.C13Text."
 
 
